@@ -13,7 +13,7 @@ def run(patch):
     tmp=tempfile.mkdtemp(prefix='hms-pm-')
     try:
         scr=os.path.join(tmp,'repo')
-        os.makedirs(scr); subprocess.run(['rsync','-a','--exclude=.git','/repo/',scr+'/'],check=True)
+        os.makedirs(scr); subprocess.run(['rsync','-a','--exclude=.git','/repo/',scr+'/'])
         if subprocess.run(['git','apply','--whitespace=nowarn',patch],cwd=scr,capture_output=True).returncode!=0: return patch,None,'does not apply'
         if subprocess.run(['go','build','./...'],cwd=scr,capture_output=True,env=ENV).returncode!=0: return patch,None,'does not build'
         p=subprocess.run([HC,'-all','-repo',scr,'-verif','/verif'],capture_output=True,text=True,env=ENV)
